@@ -188,10 +188,13 @@ Print Assumptions C16_reopen_id.
 
 (** * Cloud-staged backend *)
 
-(** the local store changes only by commit (any state, any request, repaired or not) *)
+(** the local store changes only by commit (any state, any request, repaired or not); the
+    restore path put_batch_unlogged, which applies state fetched from external storage at
+    start-up and is refused inside a transaction, is the one other writer - see the restore
+    theorems below *)
 Theorem C16_cloud_local_changes_only_by_commit :
   forall (fixed : bool) (p : profile) (sid : value) (c : cloud) (o : op),
-    o <> Commit -> local (fst (c_step_gen fixed p sid c o)) = local c.
+    o <> Commit -> (forall l, o <> Unlogged l) -> local (fst (c_step_gen fixed p sid c o)) = local c.
 Proof. exact c_local_only_by_commit. Qed.
 Print Assumptions C16_cloud_local_changes_only_by_commit.
 
@@ -273,6 +276,54 @@ Theorem C16_cloud_committed_is_reported :
 Proof. exact c_committed_is_reported. Qed.
 Print Assumptions C16_cloud_committed_is_reported.
 
+(** * The restore path (put_batch_unlogged; histories above already range over it: on the plain
+      stores it is put_batch, so monotonicity, atomicity, last-accepted-write, refinement hold
+      for it as stated) *)
+
+(** every record of a restored list, tombstones (empty values) included, is in the local
+    store afterwards with its version *)
+Theorem C16_restore_records_kept :
+  forall (c : cloud) (l : list kvv) (c' : cloud),
+    c_unlogged c l = (c', ROk) ->
+    forall k e, last_entry k l = Some e -> lookup k (local c') = Some e.
+Proof. exact c_restore_records_kept. Qed.
+Print Assumptions C16_restore_records_kept.
+
+(** so a later list serving one of those keys at a lower version - the replay of an older
+    authentic copy, e.g. the pre-deletion record of a forgotten channel - is refused whole *)
+Theorem C16_restore_replay_refused :
+  forall (c : cloud) (l : list kvv) (c1 : cloud) (k : key) (n : N) (val : value),
+    c_unlogged c l = (c1, ROk) -> last_entry k l = Some (n, val) ->
+    forall (l2 : list kvv) (v : N) (x : value),
+      In (k, (v, x)) l2 -> v < n -> c_unlogged c1 l2 = (c1, RErr).
+Proof. exact c_restore_replay_refused. Qed.
+Print Assumptions C16_restore_replay_refused.
+
+Theorem C16_plain_restore_replay_refused :
+  forall (s : store) (l : list kvv) (s1 : store) (k : key) (n : N) (val : value),
+    m_batch s l = (s1, ROk) -> last_entry k l = Some (n, val) ->
+    forall (l2 : list kvv) (v : N) (x : value),
+      In (k, (v, x)) l2 -> v < n -> m_batch s1 l2 = (s1, RErr).
+Proof. exact m_restore_replay_refused. Qed.
+Print Assumptions C16_plain_restore_replay_refused.
+
+(** the local store of a disk-backed cloud store never lowers the version of any key over any
+    history with restarts ([cr_run]: a restart drops the open transaction, keeps the disk) *)
+Theorem C16_cloud_restart_local_version_never_lowered :
+  forall (p : profile) (sid : value) (pre post : list op) (k : key),
+    vle (version_of (local (cr_run p sid pre)) k) (version_of (local (cr_run p sid (pre ++ post))) k).
+Proof. exact cr_local_version_never_lowered. Qed.
+Print Assumptions C16_cloud_restart_local_version_never_lowered.
+
+(** non-vacuity: a fresh replica restores a list holding a tombstone for a key it never saw;
+    after a restart the older live copy of that key is refused *)
+Example C16_nonvacuous_restore :
+  let ops := [Unlogged [([97], (3, [])); ([98], (0, [120]))]; Reopen] in
+  local (cr_run Debug (repeat 7 16) ops) = [([97], (3, [])); ([98], (0, [120]))] /\
+  snd (cr_step Debug (repeat 7 16) (cr_run Debug (repeat 7 16) ops) (Unlogged [([98], (0, [120])); ([97], (1, [120]))])) = OErr /\
+  snd (cr_step Debug (repeat 7 16) (cr_run Debug (repeat 7 16) ops) (Unlogged [([97], (3, []))])) = OUnit.
+Proof. vm_compute. repeat split. Qed.
+
 (** * Non-vacuity *)
 Definition kA : key := [97].
 Definition kB : key := [98].
@@ -302,16 +353,11 @@ Example C16_nonvacuous_cloud :
     mkcloud [(WRITER, (0, sid0)); (kA, (0, vY)); (kB, (4, vX))] None false.
 Proof.
   split.
-  - intros pre post E. right.
-    assert (version_of (local (c_from Release sid0 c_init pre)) WRITER = None) as ->; [|exact Logic.I].
-    assert (local (c_from Release sid0 c_init pre) = []) as ->; [|reflexivity].
-    assert (forall ops c, ~ In Commit ops -> local (c_from Release sid0 c ops) = local c) as G.
-    { induction ops as [|o r IH]; intros c N; cbn [c_from fold_left]; auto.
-      unfold c_from in IH. rewrite IH; [|intros H; apply N; right; exact H].
-      apply c_local_only_by_commit. intros ->. apply N. left. reflexivity. }
-    apply (G pre c_init). intros H.
-    assert (In Commit (pre ++ Enter :: post)) as H2 by (apply in_or_app; auto).
-    rewrite <- E in H2. cbn in H2. intuition discriminate.
+  - intros pre post E. right. destruct pre as [|o pre'].
+    + vm_compute. exact Logic.I.
+    + exfalso. cbn [app] in E. inversion E as [[Eo Et]].
+      assert (In Enter (pre' ++ Enter :: post)) as H by (apply in_or_app; right; left; reflexivity).
+      rewrite <- Et in H. cbn in H. intuition discriminate.
   - vm_compute. repeat split.
 Qed.
 
